@@ -100,6 +100,7 @@ static char *verif_strstr(const char *h, const char *n){
   if (nl > hl || nondet_bool()) return 0;
   size_t k = nondet_size_t(); __CPROVER_assume(k <= hl - nl);
   __CPROVER_assume(nl == 0 || h[k] == n[0]);
+  __CPROVER_assume(nl < 2 || h[k + 1] == n[1]);
   return (char *)h + k;
 }
 #ifndef VERIF_NO_STRSTR
@@ -146,6 +147,20 @@ void verif_set_string(const char *p, size_t len){
   for (int i = 0; i < VERIF_NSTR; i++) if (i < verif_nstr && verif_str[i].obj && __CPROVER_same_object(verif_str[i].obj, p)) { verif_str[i].obj = p; verif_str[i].len = len; return; }
   if (verif_nstr < VERIF_NSTR) { verif_str[verif_nstr].obj = p; verif_str[verif_nstr].len = len; verif_nstr++; }
 }
+#ifdef VERIF_SNPRINTF_SIMPLE
+/* loop-free variant for DFCC runs with loop contracts (goto-instrument mis-handles contract-less loops inside callees there):
+   exact length for "%s" and argument-less formats, any non-negative length otherwise */
+int verif_snprintf_core(char *buf, size_t n, const char *fmt, int nargs, verif_arg_t a0, verif_arg_t a1, verif_arg_t a2, verif_arg_t a3, verif_arg_t a4){
+  __CPROVER_assert(n == 0 || __CPROVER_w_ok(buf, n), "snprintf: size argument does not exceed the destination");
+  size_t full;
+  if (nargs == 0) full = strlen(fmt);
+  else if (nargs == 1 && a0.kind == 1 && fmt[0] == '%' && fmt[1] == 's' && fmt[2] == 0) full = strlen(a0.s);
+  else { if (a0.kind == 1) (void)strlen(a0.s); if (a1.kind == 1) (void)strlen(a1.s); if (a2.kind == 1) (void)strlen(a2.s); if (a3.kind == 1) (void)strlen(a3.s); if (a4.kind == 1) (void)strlen(a4.s); full = nondet_size_t(); }
+  __CPROVER_assume(full <= INT_MAX);
+  if (n > 0) { size_t w = full < n ? full : n - 1; __CPROVER_havoc_slice(buf, n); buf[w] = 0; }
+  return (int)full;
+}
+#else
 int verif_snprintf_core(char *buf, size_t n, const char *fmt, int nargs, verif_arg_t a0, verif_arg_t a1, verif_arg_t a2, verif_arg_t a3, verif_arg_t a4){
   __CPROVER_assert(n == 0 || __CPROVER_w_ok(buf, n), "snprintf: size argument does not exceed the destination");
   verif_arg_t a[5]; a[0] = a0; a[1] = a1; a[2] = a2; a[3] = a3; a[4] = a4;
@@ -180,3 +195,4 @@ int verif_snprintf_core(char *buf, size_t n, const char *fmt, int nargs, verif_a
   } else verif_snprintf_truncated = 1;
   return (int)full;
 }
+#endif
